@@ -286,10 +286,18 @@ func goFmt(kind, f string) string {
 
 // issue runs the real issuer on node A.
 func (w *world) issue(iss *party, typ string, subject map[string]any, f string, issuedAt int, expiresAt int, status bool) (string, error) {
+	return w.issueWith(iss, []string{"https://www.w3.org/2018/credentials/v1", "https://nuts.nl/credentials/v1"}, typ, subject, f, issuedAt, expiresAt, status)
+}
+
+func (w *world) issueWith(iss *party, contexts []string, typ string, subject map[string]any, f string, issuedAt int, expiresAt int, status bool) (string, error) {
 	issuer.TimeFunc = func() time.Time { return w.T(issuedAt) }
 	defer func() { issuer.TimeFunc = time.Now }()
+	var ctxs []ssi.URI
+	for _, c := range contexts {
+		ctxs = append(ctxs, uri(c))
+	}
 	tmpl := vc.VerifiableCredential{
-		Context:           []ssi.URI{uri("https://www.w3.org/2018/credentials/v1"), uri("https://nuts.nl/credentials/v1")},
+		Context:           ctxs,
 		Type:              []ssi.URI{uri("VerifiableCredential"), uri(typ)},
 		Issuer:            iss.id.URI(),
 		CredentialSubject: []any{subject},
@@ -620,16 +628,22 @@ type baseDoc struct {
 	Fmt    string
 	Raw    string
 	Env    *mutEnv
-	view   string
-	all    []mutant
+	// how the document is verified (default: trust required, at = T(5))
+	AllowUntrusted bool
+	Now            bool
+	view           string
+	all            []mutant
 }
 
-func (w *world) verifyDoc(kind, raw string) verdict {
+func (w *world) verifyDoc(bd *baseDoc, raw string) verdict {
 	at := w.at(5)
-	if kind == "vp" {
-		return w.b.verifyVP(raw, true, false, at)
+	if bd.Now {
+		at = nil
 	}
-	return w.b.verifyVC(raw, false, true, at)
+	if bd.Kind == "vp" {
+		return w.b.verifyVP(raw, true, bd.AllowUntrusted, at)
+	}
+	return w.b.verifyVC(raw, bd.AllowUntrusted, true, at)
 }
 
 // baseDocs builds the own output that is mutated: credentials and presentations in both formats, with nested claims,
@@ -662,7 +676,13 @@ func (w *world) baseDocs(kind, f, method string) ([]*baseDoc, error) {
 		if err != nil {
 			return nil, err
 		}
-		for _, x := range []struct{ n, raw string }{{"org", org}, {"authz", authz}} {
+		ura, err := w.issueWith(iss, []string{"https://www.w3.org/2018/credentials/v1", "https://nuts.nl/credentials/2024"}, "NutsUraCredential",
+			map[string]any{"id": d.id.String(), "organization": map[string]any{"ura": "00001234", "name": "Org", "city": "Town"}}, f, 4, 0, false)
+		if err != nil {
+			return nil, err
+		}
+		must(w.t, w.b.trust.AddTrust(uri("NutsUraCredential"), iss.id.URI()))
+		for _, x := range []struct{ n, raw string }{{"org", org}, {"authz", authz}, {"ura", ura}} {
 			env := envFor("vc", f)
 			if f == "ldp" {
 				env.OtherProof = mustTree(other).get("proof")
@@ -670,6 +690,14 @@ func (w *world) baseDocs(kind, f, method string) ([]*baseDoc, error) {
 				env.OtherSig = strings.Split(other, ".")[2]
 			}
 			add("vc-"+f+"-"+x.n, "vc", f, x.raw, env)
+		}
+		if f == "ldp" && method == "web" {
+			// the status list credential the issuer serves for the credentials above (own output, too)
+			sl, err := w.a.issuer.StatusList(audit.TestContext(), iss.id, 1)
+			if err != nil {
+				return nil, fmt.Errorf("OWN-OUTPUT status list: %w", err)
+			}
+			out = append(out, &baseDoc{Name: "vc-ldp-statuslist", Method: method, Kind: "vc", Fmt: "ldp", Raw: serial(sl, false), Env: envFor("vc", "ldp"), AllowUntrusted: true, Now: true})
 		}
 	} else {
 		mkvc := func(sub *party, name, vf string) (string, error) {
@@ -714,7 +742,7 @@ func (w *world) baseDocs(kind, f, method string) ([]*baseDoc, error) {
 		}
 	}
 	for _, bd := range out {
-		v := w.verifyDoc(bd.Kind, bd.Raw)
+		v := w.verifyDoc(bd, bd.Raw)
 		if !v.Accept {
 			return nil, fmt.Errorf("OWN-OUTPUT base document %s (%s) is refused: %s %s", bd.Name, method, v.Err, v.Panic)
 		}
@@ -746,7 +774,7 @@ func findingClass(bd *baseDoc, m mutant) string {
 
 func (w *world) execMutant(bd *baseDoc, m mutant, mo *mutOut, second *mutant) {
 	mo.Executed++
-	v := w.verifyDoc(bd.Kind, m.Doc)
+	v := w.verifyDoc(bd, m.Doc)
 	hit := mutHit{Doc: bd.Name, Method: bd.Method, Path: m.Path, Op: m.Op, Summary: m.Summary, MClass: m.MClass, PClass: m.PClass, Where: m.Where, EFmt: m.EFmt}
 	if second != nil {
 		hit.Pair = &only{Path: second.Path, Op: second.Op}
@@ -865,6 +893,24 @@ func (w *world) runMut(ci caseIn) caseOut {
 	}
 	out.Mut.Paths = len(paths)
 	out.Evals = out.Mut.Executed
+	return out
+}
+
+// runStatusList: the status list credential the node's issuer serves must verify on any node that can resolve the signer.
+func (w *world) runStatusList(ci caseIn) caseOut {
+	out := caseOut{ID: ci.ID}
+	p := w.newParty("web", "slissuer", "stable")
+	if _, err := w.issue(p, orgType, orgSubject(w.who("web", "bystander").id, "Org"), "ldp", 4, 0, true); err != nil {
+		out.Error = err.Error()
+		return out
+	}
+	sl, err := w.a.issuer.StatusList(audit.TestContext(), p.id, 1)
+	if err != nil {
+		out.Error = "OWN-OUTPUT status list: " + err.Error()
+		return out
+	}
+	out.Runs = append(out.Runs, runOut{Method: "web", Verdict: w.b.verifyVC(serial(sl, false), true, true, nil)})
+	out.Evals = 1
 	return out
 }
 
@@ -1028,6 +1074,8 @@ func TestDriver(t *testing.T) {
 			res = w.runMut(ci)
 		case "pairs":
 			res = w.runPairs(ci)
+		case "statuslist":
+			res = w.runStatusList(ci)
 		default:
 			res = caseOut{ID: ci.ID, Error: "unknown family " + ci.Case.Fam}
 		}
